@@ -30,8 +30,11 @@ def assumptions(variant, wform="blind", sform="pinned"):
             "(repair of F20-LATEINT): a tree that stops the watchdog but does not join the signals thread is rejected by "
             "the acceptor at `D return`; what happens after exit() was called (atexit/stdio flush racing with other "
             "threads) is a runtime behaviour outside model and harness",
-            "fanout >= 1, -k off, connect/command timeouts off (C07 owns the watchdog), pthread_create and rcmd_create "
-            "succeed, the clock is past INTR_TIME at start, every command ends",
+            "fanout >= 1, -k off, pthread_create and rcmd_create succeed, the clock is past INTR_TIME at start, every "
+            "command ends; connect/command timeouts off for everything that is compared with the LTS (C07 owns the "
+            "watchdog's clock; the runs with -u of class timeouts/every-position are judged by the monitors only)",
+            "stdio: per-call atomicity (a call locks the FILE, copies, unlocks) is the modelled guarantee of the product "
+            "model Dsh/SignalsOutput.lean; the check compares where dsh.c makes its stdio calls with the model's `emits`",
             "wait-for-room construct of the checked tree, detected by behaviour: %s (the C20 theorems hold for both)" % variant]
 
 
